@@ -120,7 +120,7 @@ def p_grammar(prog, case, budget):
             md = model_of(M)
             if md is None: return
             lb = model_bytes(md, bs)
-            findings.append(dict(kind='mismatch', site='from_shared_str vs IRC grammar', what=bad, predicate='colon-in-middle' if b':' in lb.strip()[1:] else 'tokenizing',
+            findings.append(dict(kind='mismatch', site='from_shared_str vs IRC grammar', what=bad, predicate=('colon-in-middle' if b':' in lb.strip()[1:] else 'tokenizing') + ('+prefix' if lb.strip()[:1] == b':' else '') + ('/refused' if res.variant == 1 else ('/accepted' if ref[0] != 'ok' else '/parsed')),
                                  witness=dict(line=lb.hex(), profile=prog.profile)))
     explore(prog, run, on, stats=st, timeout_ms=budget['solver_ms'], max_steps=budget['steps'], max_paths=budget['paths'],
             deadline=(time.time() + budget['case_s']) if budget.get('case_s') else None)
